@@ -1,6 +1,8 @@
 package kvgraph
 
 import (
+	"sync"
+
 	"github.com/bmeg/grip/gdbi"
 	"github.com/bmeg/grip/kvi"
 	"github.com/bmeg/grip/kvindex"
@@ -12,6 +14,8 @@ type KVGraph struct {
 	kv  kvi.KVInterface
 	idx *kvindex.KVIndex
 	ts  *timestamp.Timestamp
+	//graphMu serializes creation and deletion of graphs (several separate writes each)
+	graphMu sync.Mutex
 }
 
 // KVInterfaceGDB implements the GDB interface using a genertic key/value storage driver
